@@ -73,6 +73,10 @@ INT_KINDS = {
     "imported-global-of-global": ("", "other.ON2_TY", True),
     "local-mut": ("m1 : TY = 3;", "m1", False),
     "local-const-of-mut": ("m1 : TY = 3; n3 :: m1;", "n3", False),
+    "local-mut-without-value": ("mv : TY;", "mv", False),
+    "local-const-of-mut-without-value": ("mv : TY; n5 :: mv;", "n5", False),
+    "local-const-of-const-of-mut": ("m1 : TY = 3; n3 :: m1; n6 :: n3;", "n6", False),
+    "local-mut-assigned-later": ("mv : TY; mv = 3;", "mv", False),
     "local-const-of-call": ("n4 :: three_TY();", "n4", False),
     "call": ("", "three_TY()", False),
     "member": ("s := NS_TY.{ n = 3 };", "s.n", False),
@@ -94,6 +98,7 @@ TYPE_KINDS = {
     "imported-global": ("", "other.OT", True),
     "local-mut": ("T3 := i32;", "T3", False),
     "local-const-of-mut": ("T3 := i32; T4 :: T3;", "T4", False),
+    "local-const-of-const-of-mut": ("T3 := i32; T4 :: T3; T6 :: T4;", "T6", False),
     "local-const-of-call": ("T5 :: mk_ty();", "T5", False),
     "call": ("", "mk_ty()", False),
     "member": ("ts := TS.{ t = i32 };", "ts.t", False),
